@@ -19,12 +19,32 @@ func BuildReport(resultPtr *rego.ResultSet, validationConfig c.ValidationConfigu
 		return "", errors.New("empty result from evaluation")
 	}
 	raw := result[0]
-	m := raw.Expressions[0].Value.(types.ObjectMap)
-
-	profileName := m["profile"].(string)
-	violations := m["violation"].([]any)
-	warnings := m["warning"].([]any)
-	infos := m["info"].([]any)
+	// embedded Rego (rego_extensions) may redefine the rules the report is read from: check their shape
+	if len(raw.Expressions) == 0 {
+		return "", errors.New("unexpected result from evaluation: no expression")
+	}
+	m, ok := raw.Expressions[0].Value.(types.ObjectMap)
+	if !ok {
+		return "", errors.New("unexpected result from evaluation: report is not an object")
+	}
+	profileName, ok := m["profile"].(string)
+	if !ok {
+		return "", errors.New("unexpected result from evaluation: profile is not a string")
+	}
+	levels := make(map[string][]any)
+	for _, level := range []string{"violation", "warning", "info"} {
+		list, ok := m[level].([]any)
+		if !ok {
+			return "", fmt.Errorf("unexpected result from evaluation: %s is not a list of results", level)
+		}
+		for _, r := range list {
+			if _, ok := r.(types.ObjectMap); !ok {
+				return "", fmt.Errorf("unexpected result from evaluation: %s holds a result that is not an object", level)
+			}
+		}
+		levels[level] = list
+	}
+	violations, warnings, infos := levels["violation"], levels["warning"], levels["info"]
 	results := buildResults(violations, warnings, infos)
 	conforms := len(violations) == 0
 
